@@ -56,7 +56,8 @@ def gen_case(rng, forced=None):
     atoms = [rng.choice(types) for _ in range(natoms)]
     case = {'types': types, 'atoms': atoms, 'n_inst': rng.randint(1, 4), 'defines': {}, 'comb': rng.choice([1, 2]),
             'genpairs': rng.choice(['yes', 'no']), 'tables': {'bonds': [], 'angles': [], 'dihedrals': [], 'constraints': []},
-            'inters': {'bonds': [], 'angles': [], 'dihedrals': [], 'constraints': []}, 'nonbond': []}
+            'inters': {'bonds': [], 'angles': [], 'dihedrals': [], 'constraints': []}, 'nonbond': [],
+            'include_guard': rng.random() < 0.5}
     if rng.random() < 0.5:
         case['defines'] = {'gb_1': ['0.153', '7150000'], 'ga_2': ['109.5', '520.0']}
     # sections without bonded types ([ pairs ] with explicit 1-4 parameters, virtual-site constructions): parameters may be
@@ -143,8 +144,13 @@ def gen_case(rng, forced=None):
 
 def top_of(case):
     out = ['[ defaults ]', f"1 {case['comb']} {case['genpairs']} 1.0 1.0"]
+    if case['defines'] and case.get('include_guard'):
+        # the include-guard idiom of force-field files: the macros stand in a section that defines its own guard tag
+        out += ['#ifndef FF_MACROS', '#define FF_MACROS']
     for k, v in case['defines'].items():
         out.append(f"#define {k} {' '.join(v)}")
+    if case['defines'] and case.get('include_guard'):
+        out.append('#endif')
     out.append('[ atomtypes ]')
     for t in case['types']:
         out.append(f"{t} 12.0 0.0 A {case['atypes'][t][0]} {case['atypes'][t][1]}")
